@@ -32,8 +32,9 @@ MALFORMED = [b'AUTH EXTERNAL zz', b'DATA zz', b'DATA 616', b'\xff\xfe']
 class RefServer:
     """The server side of the specification's authentication state machine."""
 
-    def __init__(self, script):
+    def __init__(self, script, offered=(b'EXTERNAL',)):
         self.script = script
+        self.offered = tuple(offered)
         self.state = 'auth'          # auth | data | begin | closed | authed
         self.pos = 0
         self.rejects = 0
@@ -69,7 +70,7 @@ class RefServer:
         if self.state == 'auth':
             if cmd == b'AUTH':
                 parts = arg.split()
-                if not parts or parts[0] != b'EXTERNAL':
+                if not parts or parts[0] not in self.offered:
                     return self._reject()
                 self.pos = 0
                 return self._step()
@@ -100,7 +101,10 @@ class RefServer:
         return []
 
 
-def _mk_scripted(script, log):
+STOCK = (b'EXTERNAL', b'DBUS_COOKIE_SHA1', b'ANONYMOUS')
+
+
+def _mk_scripted(script, log, offered=STOCK):
     from txdbus import authentication as A
     from zope.interface import implementer
 
@@ -134,9 +138,9 @@ def _mk_scripted(script, log):
             log.append('cancel')
 
     class Auth(A.BusAuthenticator):
-        authenticators = {b'EXTERNAL': Scripted,
-                          b'DBUS_COOKIE_SHA1': Scripted,
-                          b'ANONYMOUS': Scripted}
+        # the documented way for an application to choose what its bus
+        # offers: a subclass with its own mechanism table
+        authenticators = {name: Scripted for name in offered}
     return Auth
 
 
@@ -169,14 +173,14 @@ def make_server(auth_cls, creds=True):
     return p, t
 
 
-def classify(out_lines, closed):
+def classify(out_lines, closed, offered=STOCK):
     """library output lines -> classes comparable with the model"""
     res = []
     for l in out_lines:
         cmd, _, arg = l.partition(b' ')
         if cmd == b'REJECTED':
             mechs = set(arg.split())
-            if mechs != {b'EXTERNAL', b'DBUS_COOKIE_SHA1', b'ANONYMOUS'}:
+            if mechs != set(offered) or len(arg.split()) != len(mechs):
                 res.append('REJECTED-with-mechs-%r' % sorted(mechs))
             else:
                 res.append('REJECTED')
@@ -210,8 +214,10 @@ class AuthScenario(explore.Scenario):
         w = W()
         w.log = []
         script = tuple(self.params['script'])
-        w.p, w.t = make_server(_mk_scripted(script, w.log))
-        w.model = RefServer(script)
+        w.offered = tuple(x.encode() for x in self.params['offered']) \
+            if self.params.get('offered') else STOCK
+        w.p, w.t = make_server(_mk_scripted(script, w.log, w.offered))
+        w.model = RefServer(script, w.offered)
         w.dead = False
         w.p.dataReceived(b'\0')
         return w
@@ -230,6 +236,12 @@ class AuthScenario(explore.Scenario):
     def apply(self, w, ev):
         malformed = ev[0] == 'm'
         line = (MALFORMED if malformed else LINES)[ev[1]]
+        if b'EXTERNAL' not in w.offered:
+            # the line alphabet names the first mechanism on offer where
+            # the stock alphabet names EXTERNAL (which then is one more
+            # mechanism this bus does not offer, next to BOGUS)
+            line = line.replace(b'EXTERNAL', w.offered[0]) \
+                if ev[1] % 2 else line
         before = w.model.key()
         w.t.take()
         was_closing = w.t.disconnecting
@@ -240,7 +252,7 @@ class AuthScenario(explore.Scenario):
             exc = e
         out = [l for l in w.t.take().split(b'\r\n') if l]
         closed = w.t.disconnecting and not was_closing
-        got = classify(out, closed)
+        got = classify(out, closed, w.offered)
         tag = '%s/%s' % (before[0], line.split(b' ')[0].decode('latin-1')
                          or 'empty')
         if malformed:
@@ -1006,7 +1018,9 @@ def run(ctx):
         '(REJECTED + mechanism list, ERROR, DATA <hex challenge>, OK <guid>, '
         'close on BEGIN out of turn and on the 6th rejection) and '
         'connectionAuthenticated() counted; state = (protocol state, script '
-        'position, rejection count, digest of the authenticator). part 2: '
+        'position, rejection count, digest of the authenticator); the same '
+        'for buses whose authenticator subclass offers one, two other, or '
+        'four mechanisms (the REJECTED list is the offered set). part 2: '
         'the real EXTERNAL / DBUS_COOKIE_SHA1 / ANONYMOUS mechanisms against '
         'a conforming reference client with right, wrong (7 shapes) and '
         'cancelled exchanges, keyring in a scratch directory; 2-3 '
@@ -1030,6 +1044,15 @@ def run(ctx):
         explore.explore(ctx, AuthScenario,
                         {'script': list(script), 'malformed': True},
                         max_depth=30, label='script ' + '-'.join(script))
+    for offered in (['ANONYMOUS'], ['X_CUSTOM', 'EXTERNAL'],
+                    ['DBUS_COOKIE_SHA1', 'ANONYMOUS'],
+                    ['EXTERNAL', 'DBUS_COOKIE_SHA1', 'ANONYMOUS', 'X_MORE']):
+        for script in (SCRIPTS[0], SCRIPTS[3]) if ctx.quick else SCRIPTS:
+            explore.explore(ctx, AuthScenario,
+                            {'script': list(script), 'malformed': True,
+                             'offered': offered}, max_depth=30,
+                            label='bus offering %s, script %s'
+                            % ('+'.join(offered), '-'.join(script)))
     explore.explore(ctx, RealAuthScenario, {}, max_depth=30,
                     label='real mechanisms, wrong cookie response')
     explore.explore(ctx, CookieScenario,
